@@ -185,3 +185,15 @@ pub fn last_panic_loc() -> String {
 pub fn hexf(x: f64) -> String {
     format!("{:016x}", x.to_bits())
 }
+
+/// CPU time (user + system) consumed by this process so far, in ms. The hang watchdogs of the monitors measure a
+/// case by the CPU it burns, not by wall-clock time: a starved, stopped or slow-to-schedule shard on a loaded
+/// machine accumulates none, a call that does not terminate accumulates it at full rate. 0 where /proc is missing.
+pub fn cpu_ms() -> u64 {
+    let s = std::fs::read_to_string("/proc/self/stat").unwrap_or_default();
+    let rest = s.rsplit_once(')').map(|x| x.1).unwrap_or("");
+    let f: Vec<&str> = rest.split_whitespace().collect();
+    // rest starts at field 3 (state): utime is field 14, stime field 15; clock ticks are 10 ms
+    let t = |i: usize| f.get(i).and_then(|x| x.parse::<u64>().ok()).unwrap_or(0);
+    (t(11) + t(12)) * 10
+}
